@@ -31,3 +31,10 @@ pub type DefaultStreamManager = AbstractStreamManager<StreamImpl>;
 
 #[cfg(test)]
 mod testing;
+
+// verification hook (off unless built with `--cfg aws_s2n_quic_verif`): in-crate line-protocol
+// harness kept outside of the repository, see /verif/hooks/transport_stream.rs
+#[cfg(all(test, aws_s2n_quic_verif))]
+mod verif {
+    include!(concat!(env!("AWS_S2N_QUIC_VERIF_HOOKS"), "/transport_stream.rs"));
+}
